@@ -188,8 +188,15 @@ func runC20(c *Ctx) {
 			}
 		}
 	}
+	for _, d := range []string{".a", "a.b", "..a"} {
+		os.Mkdir(filepath.Join(tree, d), 0o755)
+		for _, f := range []string{"a", "ab"} {
+			os.WriteFile(filepath.Join(tree, d, f), []byte("x"), 0o644)
+			all = append(all, d+"/"+f)
+		}
+	}
 	sort.Strings(all)
-	dsegs := []string{"a", "b", "ab", "a*", "*b", "*a*", "b*", "*d", "a*d", "ab*"}
+	dsegs := []string{"a", "b", "ab", "a*", "*b", "*a*", "b*", "*d", "a*d", "ab*", ".*", "*.*", "*.", ".a", "..*", "*.b"}
 	fsegs := []string{"a", "b", "ab", "a*", "*b", "a*b", "*a*", "*", "**", "*f", "b*f", "ba"}
 	if c.Level("tree") {
 		var pats []string
